@@ -1,7 +1,7 @@
 (** C03 — compiled execution equals the dataflow meaning of the user's graph.
     Models: Graph/Net.v (compilers, loaders, executor), Graph/Denote.v (user-level meaning used
     as the decidable spec on implementation outputs).  Proofs: Proofs/C03_Exec.v, C03_Compile.v,
-    C03_Ancestors.v, C03_EndToEnd.v, C03_Twins.v, C03_ModelOk.v; the declared graph: Graph/Declared.v,
+    C03_Ancestors.v, C03_EndToEnd.v, C03_Twins.v, C03_ModelOk.v, C03_Succeeds.v, C03_Refusal.v; the declared graph: Graph/Declared.v,
     Proofs/C03_Declared.v. *)
 From Coq Require Import List String ZArith Arith Bool.
 From Elfi Require Import Graph.Net Graph.Denote Proofs.C03_Exec Proofs.C03_Compile Proofs.C03_Ancestors Proofs.C03_EndToEnd
@@ -451,15 +451,104 @@ Proof.
   - exists out, log. split; [exact Hg|]. split; [rewrite Hk; vm_compute; reflexivity | exact Hd].
 Qed.
 
-(** FINDING about the predicate [ok]: [tuple_positional] is not implied by [Denote.wf_case].  A
-    constant feeding an observed-using operation through a NAMED parameter is [wf_case] and has no
-    stochastic observed data, yet the model refuses it ([EBadCall] on the args_to_tuple twin): [ok]
-    evaluates to [false] on the refusal although model and a refusing implementation [agree]. *)
+(** ================================================================================== *)
+(** ---- the refusal branch of [ok] (Proofs/C03_Refusal.v) ---- *)
+From Elfi Require Import Proofs.C03_Refusal.
+
+(** [Denote.wf_case] is exactly the conjunction of the decidable forms of the hypotheses of
+    [C03_generate_succeeds] other than "no stochastic observed data". *)
+Theorem C03_wf_case_split :
+  forall c,
+    wf_case c =
+    wfsrc_b (k_src c) && forallb out_ok (s_nodes (k_src c)) && topo_ok (k_src c) && twins_fresh_b (k_src c)
+    && tuple_positional_b (k_src c) && outputs_wf_b (k_src c) (k_outputs c) && with_ok_b (k_with c).
+Proof. exact wf_case_split. Qed.
+Print Assumptions C03_wf_case_split.
+
+Theorem C03_wf_case_hyps :
+  forall c, wf_case c = true ->
+    wfsrc (k_src c)
+    /\ forallb out_ok (s_nodes (k_src c)) = true
+    /\ topo_ok (k_src c) = true
+    /\ twins_fresh (k_src c)
+    /\ tuple_positional (k_src c)
+    /\ outputs_wf (k_src c) (k_outputs c)
+    /\ NoDup (map fst (k_with c))
+    /\ (forall k, In k (map fst (k_with c)) -> ~ In k inames).
+Proof. exact wf_case_hyps. Qed.
+Print Assumptions C03_wf_case_hyps.
+
+(** The model refuses only malformed graphs or stochastic observed data: whenever [generate]
+    fails, the refusal passes [ok]. *)
+Theorem C03_model_refusal_ok :
+  forall c e,
+    generate (k_src c) (k_outputs c) (k_with c) = Err e ->
+    ok {| k_src := k_src c; k_outputs := k_outputs c; k_with := k_with c; k_impl := ImplErr |} = true.
+Proof. exact model_refusal_ok. Qed.
+Print Assumptions C03_model_refusal_ok.
+
+(** [ok] on the model's own result ([model_result]: [ImplOk out (op_log src log)] or [ImplErr]),
+    for every case: unconditionally when the model refuses; when it succeeds, under the decidable
+    hypotheses of [C03_model_ok] ([model_pre]: [wfsrc_b], requested outputs are nodes or twins,
+    supplied keys distinct and not reserved), which are conjuncts of [wf_case]. *)
+Theorem C03_model_ok_total :
+  forall c,
+    (forall out log, generate (k_src c) (k_outputs c) (k_with c) = Ok (out, log) -> model_pre c = true) ->
+    ok (with_impl c (model_result c)) = true.
+Proof. exact model_ok_total. Qed.
+Print Assumptions C03_model_ok_total.
+
+(** in particular for every [wf_case], whatever the model does *)
+Theorem C03_model_ok_wf :
+  forall c, wf_case c = true -> ok (with_impl c (model_result c)) = true.
+Proof. exact model_ok_wf. Qed.
+Print Assumptions C03_model_ok_wf.
+
+(** for a [wf_case] the model succeeds exactly when no observed data depends on a stochastic node *)
+Theorem C03_model_result_wf :
+  forall c, wf_case c = true ->
+    (stochastic_observed (k_src c) = false <-> exists out log, model_result c = ImplOk out log).
+Proof. exact model_result_wf. Qed.
+Print Assumptions C03_model_result_wf.
+
+(** The hypothesis of [C03_model_ok_total] cannot be dropped: with a supplied value under the
+    reserved name "_batch_size", or with two supplied values under one key, the model succeeds
+    with a result that is not the user-level meaning. *)
+Theorem C03_model_ok_needs_hyps : ~ (forall c, ok (with_impl c (model_result c)) = true).
+Proof. exact model_ok_needs_hyps. Qed.
+Print Assumptions C03_model_ok_needs_hyps.
+
+(** Strengthening [wf_case] left [ok] unchanged on accepted runs and only weakened it on refused
+    ones: every case that passed the first version ([ok_old]) passes [ok]. *)
+Theorem C03_ok_accepted_unchanged :
+  forall c out log, k_impl c = ImplOk out log -> ok c = ok_old c.
+Proof. exact ok_accepted_unchanged. Qed.
+Print Assumptions C03_ok_accepted_unchanged.
+
+Theorem C03_ok_monotone : forall c, ok_old c = true -> ok c = true.
+Proof. exact ok_monotone. Qed.
+Print Assumptions C03_ok_monotone.
+
+(** FINDING about the predicate [ok], now repaired: a constant feeding an observed-using operation
+    through a NAMED parameter satisfies [wfsrc_b] and the first version of [wf_case] and has no
+    stochastic observed data, yet the model refuses it ([EBadCall] on the args_to_tuple twin); the
+    first version of [ok] rejected that refusal.  [wf_case] now contains [tuple_positional_b], the
+    graph is not [wf_case], and [ok] ACCEPTS the refusal, on which model and a refusing
+    implementation [agree]. *)
 Example C03_tuple_named_parent_refused :
   generate np_src ["d"%string] [] = Err (EBadCall "_d_observed"%string)
   /\ wfsrc_b np_src = true
-  /\ wf_case {| k_src := np_src; k_outputs := ["d"%string]; k_with := []; k_impl := ImplErr |} = true
+  /\ wf_case {| k_src := np_src; k_outputs := ["d"%string]; k_with := []; k_impl := ImplErr |} = false
   /\ stochastic_observed np_src = false
-  /\ ok {| k_src := np_src; k_outputs := ["d"%string]; k_with := []; k_impl := ImplErr |} = false
+  /\ ok {| k_src := np_src; k_outputs := ["d"%string]; k_with := []; k_impl := ImplErr |} = true
   /\ agree {| k_src := np_src; k_outputs := ["d"%string]; k_with := []; k_impl := ImplErr |} = true.
 Proof. exact tuple_named_parent_refused. Qed.
+Print Assumptions C03_tuple_named_parent_refused.
+
+Example C03_tuple_named_parent_old :
+  let c := {| k_src := np_src; k_outputs := ["d"%string]; k_with := []; k_impl := ImplErr |} in
+  generate np_src ["d"%string] [] = Err (EBadCall "_d_observed"%string)
+  /\ wf_case_old c = true /\ ok_old c = false
+  /\ wf_case c = false /\ tuple_positional_b np_src = false /\ ok c = true.
+Proof. exact tuple_named_parent_old. Qed.
+Print Assumptions C03_tuple_named_parent_old.
